@@ -42,9 +42,9 @@ def CnPost (t : Topo) (svc iid : Nid) (c : Nat) (cache : Cache) (r : Except Err 
 
 theorem CnPost.err {t svc iid c cache} (e : Err) : CnPost t svc iid c cache (.error e, t) := .inl ⟨e, rfl⟩
 
-theorem connect_spec (fl : Flavour) (c : Nat) (svc iid : Nid) (iname : String) (cache : Cache) (t : Topo)
+theorem connect_spec' (fl : Flavour) (c : Nat) (svc iid : Nid) (iname : String) (cache : Cache) (t : Topo)
     (hd : IdsDistinct t) (hc : Closed t) (hcp : ∀ n ∈ t.nodes, n.nid = iid → n.cls = .connectionPoint)
-    (hf : ∀ m ∈ t.nodes, m.nid ≠ .gen c ∧ m.nid ≠ .gen (c + 1)) (hnm : NameHyp t iname) :
+    (hf : ∀ m ∈ t.nodes, m.nid ≠ .gen c ∧ m.nid ≠ .gen (c + 1)) :
     CnPost t svc iid c cache (connectInterface fl c svc cache (.iface iid iname) t) := by
   unfold connectInterface
   simp only []
@@ -54,6 +54,10 @@ theorem connect_spec (fl : Flavour) (c : Nat) (svc iid : Nid) (iname : String) (
   refine ro_step (by ro) CnPost.err (fun o ho => ?_)
   refine ro_step (by ro) CnPost.err (fun peers hpeers => ?_)
   refine ro_step (by ro) CnPost.err (fun _ hg => ?_)
+  simp only [flag_connectNamePrecheck, if_true]
+  refine ro_step (by ro) CnPost.err (fun _ hvcp => ?_)
+  refine ro_step (by ro) CnPost.err (fun _ hvln => ?_)
+  have hlinkname := guard_ok hvln
   have hpe : peers = [] := by have := guard_ok hg; simpa using this
   subst hpe
   have ho' : owner = some o := by cases owner <;> simp [need] at ho ⊢; exact ho
@@ -107,7 +111,7 @@ theorem connect_spec (fl : Flavour) (c : Nat) (svc iid : Nid) (iname : String) (
       · simp at hm; subst hm; rw [hnid']; simp
     obtain ⟨ln, hlc, hli, hlrun⟩ := linkNew_run (c := c + 1) (name := o.name ++ "-" ++ iname ++ "-link")
       (ty := if (fi.typ == "SharedPort") = true then "L2Path" else "Patch") (layer := "L2") hdU (by simp)
-      (hnm o hom hoc hvn) hlayer hpres hfreshU
+      hlinkname hlayer hpres hfreshU
     rw [bind_ok hlrun]
     refine .inr ⟨pn, fi, n, ln, o.name ++ "-" ++ iname, hsvm, hsvi, hfim, hfii, hpeers, hncls, hnid', hntyp, hlc, hli, ?_⟩
     simp only [pure_apply', Prod.mk.injEq, true_and]
@@ -143,4 +147,13 @@ theorem connect_spec (fl : Flavour) (c : Nat) (svc iid : Nid) (iname : String) (
         simp [sameEnds, hfr, hnr, hlr, hiidc]
     rw [setEdge_append e2]
     simp only [connState, pushNode, hU1n, hU1e, List.append_assoc, List.cons_append, List.nil_append]
+
+/-- old signature (the name hypothesis is no longer needed since commit d747e04: `connect_interface` validates both
+derived names before it creates anything); kept for the files that still pass it -/
+theorem connect_spec (fl : Flavour) (c : Nat) (svc iid : Nid) (iname : String) (cache : Cache) (t : Topo)
+    (hd : IdsDistinct t) (hc : Closed t) (hcp : ∀ n ∈ t.nodes, n.nid = iid → n.cls = .connectionPoint)
+    (hf : ∀ m ∈ t.nodes, m.nid ≠ .gen c ∧ m.nid ≠ .gen (c + 1)) (_hnm : NameHyp t iname) :
+    CnPost t svc iid c cache (connectInterface fl c svc cache (.iface iid iname) t) :=
+  connect_spec' fl c svc iid iname cache t hd hc hcp hf
+
 end FimVerif.Topo
